@@ -6,7 +6,7 @@ import numpy as np
 import pykoop
 from .. import core, pipes, structural as st
 
-THEOREMS = ['Pk.C07.C07_ic', 'Pk.C07.C07_rows', 'Pk.C07.C07_step', 'Pk.C07.C07_inputs',
+THEOREMS = ['Pk.C07.C07_ic', 'Pk.C07.C07_rows', 'Pk.C07.C07_step', 'Pk.C07.C07_inputs', 'Pk.C07.C07_norelift_step',
             'Pk.C07.C07_episodes', 'Pk.C07.C07_predict_def', 'Pk.step_eq_predict', 'Pk.trajRelift_row']
 ALG = ['poly', 'bilinear', 'const', 'delay', 'delay']
 
